@@ -147,11 +147,23 @@ CLAIMS.update({
              "equivalence with the modified environment is not decided.", note=TB, ref="DESIGN.md §3 C17"),
 })
 
+CLAIMS.update({
+    "C15": dict(
+        technique="static analysis: finite-domain evaluation of RequireMode::find_require and the convert_require processor from their typed THIR (abstract interpretation with std::path's Unix semantics as a text model, the file system as an enumerated oracle through hooks on Resources::is_file/exists/is_directory), compared with an independent specification of the documented order; role-based discovery of the processor (rustc_private driver)",
+        text="For every require mode (path with module folder init/index, luau) x requiring file (ordinary, module-folder file, top-level) x require string "
+             "(relative, parent-relative, redundant ./.. segments, with/without extension, source/alias/@self prefixed, unknown source) x layout (no candidate, "
+             "each single candidate, each pair; thorough: every subset, directories of the same stem present): find_require returns the first existing candidate "
+             "of the documented order from the documented head; convert_require between path and luau writes an argument that resolves, under the target mode, "
+             "to the file the original resolved to (one-candidate layouts; the extension/folder-name shortening on ambiguous layouts is a known finding). "
+             "Windows prefixes, non-UTF-8 names, .luaurc discovery, symlinks and the roblox mode are not decided; the enumerated domain is finite.",
+        note="No darklua code runs: functions are evaluated from the compiler's typed tree on abstract values; a cell the evaluator cannot establish fails closed. "
+             "pathdiff::diff_paths is transcribed from the pinned pathdiff 0.2.3. " + TB,
+        ref="DESIGN.md §3 C15"),
+})
+
 NOT_APPLICABLE = {
     "C13": "literal round-trip equality is arithmetic on bytes and doubles (escape padding, shortest float repr, quote choice by content): "
            "no clause is visible in the shape of the code beyond what unit tests already pin; static analysis cannot bound these runtime values",
-    "C15": "which candidate file a require string resolves to is a function of run-time path strings and file-system state; the documented "
-           "order is a value-level specification with no sound structural necessary condition in reach",
 }
 
 
